@@ -317,7 +317,7 @@ fn attribution_job(ctx: &mut Ctx, res: &mut ShardResult) {
                     }
                 }
             }
-            if idx % 101 == 0 {
+            if res.samples.is_empty() || idx % 101 == 0 {
                 res.sample(|| json!({"old_steps": old_steps, "new_steps": new_steps}));
             }
         }
